@@ -244,7 +244,7 @@ fn check(ctx: &Ctx, scratch: &Path, assign: [PK; 4], variant: usize, entries_in:
     r
 }
 
-struct KeepIt;
+pub struct KeepIt;
 impl libcnb::layer::Layer for KeepIt {
     type Buildpack = crate::layermodel::HB;
     type Metadata = libcnb::generic::GenericMetadata;
